@@ -91,6 +91,11 @@ func c06Build(shape int, focus string) *c06shape {
 	if sharedSigner {
 		shape = 1
 	}
+	// shape 4: own copies, and the PCK-CRL issuer-chain header lists the root before the CA (well-formed, other order)
+	reversedCrlHdr := shape == 4
+	if reversedCrlHdr {
+		shape = 2
+	}
 	var poolRoot, chainRoot, tcbRoot, qeRoot, crlRoot, inter, crlInter *x509.Certificate
 	if shape == 1 {
 		s.name = "shared-root"
@@ -154,11 +159,16 @@ func c06Build(shape int, focus string) *c06shape {
 	ti.NextUpdate, qi.NextUpdate = world.TimeStr(tcbNU), world.TimeStr(qeNU)
 	ti.IssueDate, qi.IssueDate = world.TimeStr(mo(-300)), world.TimeStr(mo(-300)) // issued long ago: a stricter "not yet issued" check must not interfere
 	g := world.NewGetter()
+	crlHdr := world.IssuerChainHeader(crlInter, crlRoot)
+	if reversedCrlHdr {
+		crlHdr = world.IssuerChainHeader(crlRoot, crlInter)
+		s.name = strings.Replace(s.name, "own-copies", "own-copies+pckcrl-header-root-first", 1)
+	}
 	g.Responses[world.URLTcbInfo(hexs(plat.FMSPC))] = world.Response{Header: map[string][]string{world.HdrTcbInfo: {world.IssuerChainHeader(tcbSigner, tcbRoot)}},
 		Body: world.SignedBody("tcbInfo", world.MustJSON(ti), pki.TcbKey)}
 	g.Responses[world.URLQeIdentity] = world.Response{Header: map[string][]string{world.HdrQeIdentity: {world.IssuerChainHeader(qeSigner, qeRoot)}},
 		Body: world.SignedBody("enclaveIdentity", world.MustJSON(qi), qeKey)}
-	g.Responses[world.URLPckCrl("platform")] = world.Response{Header: map[string][]string{world.HdrPckCrl: {world.IssuerChainHeader(crlInter, crlRoot)}},
+	g.Responses[world.URLPckCrl("platform")] = world.Response{Header: map[string][]string{world.HdrPckCrl: {crlHdr}},
 		Body: world.MakeCRL(world.CRLSpec{Issuer: inter, Signer: pki.InterKey, ThisUpdate: mo(-300), NextUpdate: pckCrlNU})}
 	g.Responses[world.RootCRLURL] = world.Response{Body: world.MakeCRL(world.CRLSpec{Issuer: chainRoot, Signer: pki.RootKey, ThisUpdate: mo(-300), NextUpdate: rootCrlNU})}
 	s.getter = g
@@ -230,6 +240,9 @@ func runC06(r *mc.Run) {
 	}
 	for _, f := range []string{"leaf", "inter", "root", "chainRoot", "tcbSigner", "tcbRoot", "qeSigner", "qeRoot", "crlInter", "crlRoot", "tcbNext", "qeNext", "pckCrlNext", "rootCrlNext", "nb:leaf", "nb:inter", "nb:root", "nb:tcbSigner", "nb:qeSigner"} {
 		shapes = append(shapes, c06Build(2, f))
+	}
+	for _, f := range []string{"", "crlInter", "crlRoot", "nb:crlInter"} {
+		shapes = append(shapes, c06Build(4, f))
 	}
 	// Intel-like in one more respect: one TCB-signing certificate serves both JSON documents
 	shapes = append(shapes, c06Build(3, ""))
